@@ -1521,6 +1521,65 @@ def translate_lex(repo_src):
         out.append("/-- `repr(align)` of the in-place buffer / `STACK_MAX_ALIGN` (src/mem) -/\ndef %s : Nat := %s\n" % (nm, vals[nm]))
     return "\n".join(out), errors
 
+
+# ------------------------------------------------------------------------------------------ copy_bytes
+class EmitBytes(Emit):
+    """`crate::copy_bytes` -> which of its three ways of moving the bytes run, in order (`List BStep`)"""
+    def strip(self, e):
+        while e[0] == "cast": e = e[1]
+        return e
+    def cond(self, e, pre):
+        if e[0] == "fcall" and e[1] == "cfg!" and e[2] == [("var", "miri")]: return "miri"
+        if e[0] == "bin" and e[1] in ("||", "&&"):
+            return "(%s %s %s)" % (self.cond(e[2], pre), e[1], self.cond(e[3], pre))
+        if e[0] == "bin" and e[1] == "<=" and self.strip(e[2]) == ("var", "dst") and self.strip(e[3]) == ("var", "src"): return "dstLeSrc"
+        if e[0] == "bin" and e[1] == ">=" and self.strip(e[2]) == ("var", "src") and self.strip(e[3]) == ("var", "dst"): return "dstLeSrc"
+        if any(v in ("src", "dst") for v in find_vars(e)): raise KernelError("unsupported pointer comparison in copy_bytes")
+        return Emit.cond(self, e, pre)
+    def byte_assign(self, b, var):
+        ok = (b[0] == "assign" and b[2] == "=" and b[1][0] == "deref" and b[3][0] == "deref"
+              and b[1][1] == ("call", ("var", "dst"), "add", [("var", var)], None)
+              and b[3][1] == ("call", ("var", "src"), "add", [("var", var)], None))
+        if not ok: raise KernelError("loop body is not `*dst.add(i) = *src.add(i)`")
+    def sts(self, stmts, k):
+        if not stmts: return k()
+        s, rest = stmts[0], stmts[1:]
+        nxt = lambda: self.sts(rest, k)
+        if s[0] == "return": return "[]"
+        if s[0] == "for":
+            var, rng, body = s[1], s[2], s[3]
+            if len(body) != 1: raise KernelError("byte loop body has %d statements" % len(body))
+            self.byte_assign(body[0], var)
+            if rng == ("bin", "..", ("num", 0), ("var", "count")): return "BStep.fwdLoop ::\n  %s" % nxt()
+            if rng[0] == "call" and rng[2] == "rev" and not rng[3] and rng[1] == ("bin", "..", ("num", 0), ("var", "count")):
+                return "BStep.bwdLoop ::\n  %s" % nxt()
+            raise KernelError("byte loop is not over 0..count or (0..count).rev()")
+        if s[0] in ("expr", "tail"):
+            e = s[1]
+            if e[0] == "block": return self.sts(list(e[1]) + list(rest), k)
+            if e[0] == "if":
+                c = self.cond(e[1], [])
+                return "(if %s then\n  %s\n  else\n  %s)" % (c, self.sts(list(e[2]) + list(rest), k), self.sts(list(e[3] or []) + list(rest), k))
+            if e[0] == "fcall" and e[1] in ("ptr::copy", "core::ptr::copy") and e[2] == [("var", "src"), ("var", "dst"), ("var", "count")]:
+                return "BStep.ptrCopy ::\n  %s" % nxt()
+            raise KernelError("unsupported statement in copy_bytes: %s" % unparse(e))
+        raise KernelError("unsupported statement kind in copy_bytes: %s" % s[0])
+
+def translate_bytes(repo_src):
+    out = ["/-- one of the three ways `copy_bytes` moves its bytes -/\ninductive BStep where\n  | ptrCopy | fwdLoop | bwdLoop\n  deriving Repr, DecidableEq\n"]
+    errors = {}
+    try:
+        src = strip_comments(open(os.path.join(repo_src, "lib.rs")).read())
+        ast = P(tokenize(find_fn(src, "copy_bytes", None))).block()
+        lean = EmitBytes({"count": "count"}, {}, {}).sts(ast, lambda: "[]")
+    except KernelError as ex:
+        errors["copy_bytes_prog"] = str(ex); lean = "[BStep.bwdLoop, BStep.fwdLoop, BStep.bwdLoop] -- could not be translated: %s" % str(ex)
+    except Exception as ex:
+        errors["copy_bytes_prog"] = "translator failure: %r" % (ex,); lean = "[BStep.bwdLoop, BStep.fwdLoop, BStep.bwdLoop] -- translator failure"
+    out.append("/-- `copy_bytes` in src/lib.rs -/")
+    out.append("def copy_bytes_prog (count : Nat) (dstLeSrc miri : Bool) : List BStep :=\n  %s\n" % lean)
+    return "\n".join(out), errors
+
 def translate(repo_src):
     """-> (lean text, {kernel: error}) ; kernels that cannot be translated are emitted as `Res.ub "<why>"` stubs"""
     out = ["/- generated by py/kernelgen.py from /repo/src on every run: the crate's pure integer kernels -/",
@@ -1610,6 +1669,8 @@ def translate(repo_src):
     out.append(atext); errors.update(aerrs)
     ltext, lerrs = translate_lex(repo_src)
     out.append(ltext); errors.update(lerrs)
+    btext, berrs = translate_bytes(repo_src)
+    out.append(btext); errors.update(berrs)
     out.append("end AnyVec.Gen.Kernel\n")
     return "\n".join(out), errors
 
